@@ -40,6 +40,13 @@ async def _handle(
         await send(None)
 
 
+def _is_disconnect(message: Any) -> bool:
+    return isinstance(message, dict) and message.get("type") in {
+        "http.disconnect",
+        "websocket.disconnect",
+    }
+
+
 class TaskGroup:
     def __init__(self) -> None:
         self._nursery: trio.Nursery | None = None
@@ -56,8 +63,6 @@ class TaskGroup:
             config.max_app_queue_size
         )
 
-        app_task: Optional[trio.lowlevel.Task] = None
-
         async def _send_to_app(message: ASGIReceiveEvent) -> None:
             try:
                 await app_send_channel.send(message)
@@ -65,10 +70,11 @@ class TaskGroup:
                 pass  # The app has finished
 
         async def _put(message: ASGIReceiveEvent) -> None:
-            if trio.lowlevel.current_task() is app_task:
-                # Put from within one of the app's own sends (e.g. the
-                # disconnect that follows its final send), waiting for
-                # room here would be waiting for the app itself.
+            if _is_disconnect(message):
+                # This is usually put from within one of the app's own
+                # sends (the disconnect that follows its final send, in
+                # whichever of its tasks), waiting for room here would
+                # be waiting for the app itself.
                 try:
                     app_send_channel.send_nowait(message)
                 except trio.WouldBlock:
@@ -77,11 +83,6 @@ class TaskGroup:
                     pass  # The app has finished
             else:
                 await _send_to_app(message)
-
-        async def _run(*args: Any) -> None:
-            nonlocal app_task
-            app_task = trio.lowlevel.current_task()
-            await _handle(*args)
 
         async def _send(message: Optional[ASGISendEvent]) -> None:
             if message is None:
@@ -93,7 +94,7 @@ class TaskGroup:
             await send(message)
 
         self._nursery.start_soon(
-            _run,
+            _handle,
             app,
             config,
             scope,
